@@ -910,8 +910,8 @@ REGISTRY = {
     'C14': dict(modules=['LibconfigModel.Properties.C14'], run=run_C14, assumptions=COMMON_ASSUMPTIONS + ['the C memory model and races inside libc are outside the model; ThreadSanitizer observes executed paths only', 'config_set_fatal_error_func is not called concurrently (it writes the only mutable static object)']),
     'C13': dict(modules=['LibconfigModel.Properties.C13'], run=run_C13, assumptions=COMMON_ASSUMPTIONS + ['what the process does after a handler that returns is documented as undefined and not examined', 'allocations inside libc (fopen, newlocale, stdio buffers) are not the library\'s own and are not failed']),
     'C18': dict(modules=['LibconfigModel.Properties.C18', 'LibconfigModel.Properties.Skeleton'], run=run_C18, assumptions=COMMON_ASSUMPTIONS + ['the generic flex matching loop (Flex.lean) is a hand-written model of the skeleton flex emits for every scanner; it is tied by the lex correspondence']),
-    'C20': dict(modules=['LibconfigModel.Properties.C20', 'LibconfigModel.Properties.C20File', 'LibconfigModel.Properties.Skeleton', 'LibconfigModel.Properties.C20Buffer'], run=run_C20, assumptions=COMMON_ASSUMPTIONS + ['the pointer arithmetic of yy_get_next_buffer (generated flex code) is outside the model; it is exercised at the 8/16/32 KiB boundaries under ASan']),
-    'C15': dict(modules=['LibconfigModel.Properties.C15'], run=run_C15, assumptions=COMMON_ASSUMPTIONS + ['the comma-decimal locale is synthesised from C.utf8 by patching the radix byte of LC_NUMERIC (the sandbox has no other locales)', 'glibc newlocale with a NULL base yields the "C" locale in every category']),
+    'C20': dict(modules=['LibconfigModel.Properties.C20', 'LibconfigModel.Properties.C20File', 'LibconfigModel.Properties.Skeleton', 'LibconfigModel.Properties.C20Buffer', 'LibconfigModel.Properties.C20Used'], run=run_C20, assumptions=COMMON_ASSUMPTIONS + ['the buffer arithmetic of yy_get_next_buffer is modelled by hand (FlexBuffer.lean), pinned to the generated text by the skeleton hashes and exercised at the 8/16/32 KiB boundaries under ASan; yyrealloc is assumed to succeed']),
+    'C15': dict(modules=['LibconfigModel.Properties.C15', 'LibconfigModel.Properties.C15Threads'], run=run_C15, assumptions=COMMON_ASSUMPTIONS + ['the comma-decimal locale is synthesised from C.utf8 by patching the radix byte of LC_NUMERIC (the sandbox has no other locales)', 'glibc newlocale with a NULL base yields the "C" locale in every category']),
     'C12': dict(modules=['LibconfigModel.Properties.C12'], run=run_C12, assumptions=COMMON_ASSUMPTIONS + ['stdio reports a failed write(2) through fflush()/ferror(); a successful fclose() means the kernel accepted all data']),
     'C09': dict(modules=['LibconfigModel.Properties.C09', 'LibconfigModel.Properties.C09Line'], run=run_C09, assumptions=COMMON_ASSUMPTIONS),
     'C08': dict(modules=['LibconfigModel.Properties.C08', 'LibconfigModel.Properties.C08Float'], run=run_C08, assumptions=COMMON_ASSUMPTIONS),
